@@ -101,7 +101,7 @@ def cek_property(pid, tier, plan, relevant, rule, level='model_checking', max_oo
     for S in sessions.values():
         for s in list(S.values())[:2]:
             samples.append({'forms': s.get('text', [])[:6], 'tags': s.get('tags', []),
-                            'first_run': [o.get('r') for o in s['runs'][0]['obs']][:6]})
+                            'first_run': [o.get('r') for o in s['runs'][0]['obs']][:6] if s.get('runs') else ['aborted']})
         if len(samples) >= 3:
             break
     cov = {
